@@ -244,6 +244,15 @@ pub fn check_remesh(pre: &State, post: &State, op: &Op, res: &Result<Res, String
                     return out;
                 }
             }
+            // "leaving one vertex": some dart outside the removed triangles must start at an end
+            // point, otherwise nothing is left to carry the resulting vertex (isolated triangle,
+            // pair of triangles hanging by a corner) and the statement cannot be evaluated
+            let removed: BTreeSet<u32> = [l, pre.b(1, l), pre.b(0, l)].into_iter().chain(if r != 0 { vec![r, pre.b(1, r), pre.b(0, r)] } else { vec![] }).collect();
+            let survivor = (1..pre.n() as u32).any(|x| !pre.unused[x as usize] && !pre.is_free(x) && !removed.contains(&x) && { let p = o(x); p == a || p == b });
+            if !survivor {
+                probe.premise_failed += 1;
+                return out;
+            }
             collapse_targets = if mask_has(pre.kinds, K_VA) {
                 let (ia, ib) = (pv[l as usize], pv[pre.b(1, l) as usize]);
                 match (pre.attrs[K_VA][ia as usize], pre.attrs[K_VA][ib as usize]) {
